@@ -39,7 +39,6 @@ package grpcsync
 // function removes exactly that subscriber.
 //@ func (*PubSub).Publish
 //@   prop C31
-//@   requires ps != nil
 //@   loop 1 invariant ps.msg == msg
 //@   assert at call TrySchedule#1 arg0 == ps.cs && ps.msg == msg
 //@   assert at return end ps.msg == msg
